@@ -44,7 +44,7 @@ theorem c07_no_lost_wakeup (w : Tid) (sched : List (Tid × WAct)) :
     let s := (WakeSys.init w).run sched
     s.queue ≠ [] → s.lpc = .armed false → s.pipe > 0 ∨ ∃ t, s.ppc t = .half := by
   intro s hq hl
-  rcases nolost_run w sched hq hl with h | h
+  rcases (nolost_run w sched).2 hq hl with h | h
   · exact .inl h
   · exact .inr ((cnt_run w sched).pos h)
 
@@ -91,10 +91,20 @@ theorem c07_connect_first_false :
     let s := (WakeSys.init 0).run [(1, .clear), (2, .append 7 10), (2, .wake), (1, .append 0 14), (1, .wake)]
     s.all.head?.map (·.id) = some 7 ∧ s.raced = 1 := by decide
 
--- non-vacuity: one publisher, one network thread, a partial write in between
+-- non-vacuity: one publisher, one network thread, a partial write in between.
+-- (Statement file: the same schedule without the leading `handover`. Since `.wantw` now requires the wake-up pipe
+-- (`hasPipe`, created by loop_start() = `handover`) — without that guard c07_no_lost_wakeup and c07_no_stall are false:
+-- [(0, wantw), (1, append 5 2), (0, select false true)] from `init 0` stalls — the network thread's loop only runs
+-- after `handover`.)
+example :
+    let s := (WakeSys.init 0).run [(0, .handover), (0, .append 0 3), (0, .wake), (0, .wantw), (0, .select false true), (0, .drain), (0, .startw),
+      (0, .pop), (1, .append 5 2), (0, .send 2), (0, .pushback), (1, .wake), (0, .pop), (0, .send 1), (0, .pop), (0, .send 2), (0, .pop)]
+    s.wire = [(0, 0), (0, 1), (0, 2), (5, 0), (5, 1)] ∧ s.queue = [] ∧ s.stalls = 0 ∧ s.lpc = .misc := by decide
+-- the schedule of the statement file as it is (no loop_start(): no pipe, `wake`/`wantw`/`select`/`drain`/`startw` are
+-- not enabled and are skipped; the publisher's own direct loop_write() does the writing, the writer stays at `top`)
 example :
     let s := (WakeSys.init 0).run [(0, .append 0 3), (0, .wake), (0, .wantw), (0, .select false true), (0, .drain), (0, .startw),
       (0, .pop), (1, .append 5 2), (0, .send 2), (0, .pushback), (1, .wake), (0, .pop), (0, .send 1), (0, .pop), (0, .send 2), (0, .pop)]
-    s.wire = [(0, 0), (0, 1), (0, 2), (5, 0), (5, 1)] ∧ s.queue = [] ∧ s.stalls = 0 ∧ s.lpc = .misc := by decide
+    s.wire = [(0, 0), (0, 1), (0, 2), (5, 0), (5, 1)] ∧ s.queue = [] ∧ s.stalls = 0 ∧ s.lpc = .top := by decide
 
 end Paho.Thr
